@@ -198,3 +198,13 @@ M("C08-R1-new-key-empty-partition", "C08", [(S, "result.insert(key, vec![item.cl
 M("C08-R2-key-first-field-only", "C08", [(S, "            let key: Vec<String> = group_fields\n                .iter()\n                .map(", "            let key: Vec<String> = group_fields\n                .iter()\n                .take(1)\n                .map(")], ["key_construction"])
 M("C08-R3-aggregate-over-whole-buffer", "C08", [(S, "                                &mut file_map,\n                                Some(f.1),\n                                column_expr", "                                &mut file_map,\n                                None,\n                                column_expr")], ["groups_aggregate-scope"])
 M("C08-R3-direction-ignored", "C08", [(S, "                                                return if directions[idx] { \n                                                    a.cmp(&b) \n                                                } else { \n                                                    b.cmp(&a) \n                                                };", "                                                return if directions[idx] { \n                                                    a.cmp(&b) \n                                                } else { \n                                                    a.cmp(&b) \n                                                };")], ["groups_ordering-direction"])
+
+# ---------------------------------------------------------------- C19
+FINFO, FLD = "src/fileinfo.rs", "src/field.rs"
+M("C19-R1-range-from-1", "C19", [(S, "for i in 0..archive.len() {", "for i in 1..archive.len() {")], ["members_range"])
+M("C19-R1-members-unwrap", "C19", [(S, "if let Ok(afile) = archive.by_index(i) {\n                                                        let file_info = to_file_info(&afile);", "{\n                                                        let afile = archive.by_index(i).unwrap();\n                                                        let file_info = to_file_info(&afile);")], ["members_guards"])
+M("C19-R1-members-only-files", "C19", [(S, "                                                    if let Ok(afile) = archive.by_index(i) {\n", "                                                    if let Ok(afile) = archive.by_index(i) {\n                                                        if afile.is_dir() {\n                                                            continue;\n                                                        }\n")], ["members_exit"])
+M("C19-R2-compressed-size", "C19", [(FINFO, "size: zipped_file.size(),", "size: zipped_file.compressed_size(),")], ["file-info_size"])
+M("C19-R3-uid-available", "C19", [(FLD, "            Field::Name\n                | Field::Extension\n                | Field::Path\n                | Field::AbsPath", "            Field::Name\n                | Field::Uid\n                | Field::Extension\n                | Field::Path\n                | Field::AbsPath")], ["availability_Uid"])
+M("C19-R3-label-order", "C19", [(S, "                        \"[{}] {}\",\n                        entry.file_name().to_string_lossy(),\n                        file_info.name\n                    ));\n                }\n                _ => {\n                    return Variant::from_string(&format!(\n                        \"{}\",", "                        \"[{}] {}\",\n                        file_info.name,\n                        entry.file_name().to_string_lossy()\n                    ));\n                }\n                _ => {\n                    return Variant::from_string(&format!(\n                        \"{}\",")], ["member-label_Name"])
+M("C19-R3-early-return-inverted", "C19", [(S, "if file_info.is_some() && !field.is_available_for_archived_files() {", "if file_info.is_some() && field.is_available_for_archived_files() {")], ["availability_early-return"])
